@@ -104,7 +104,8 @@ def main(tier, seed, replay=None):
                 if "items" in c and len(c["items"]) > 4:
                     c["items"] = c["items"][:4]
             jobs.append((prog, rng.getrandbits(30), "socket" if i % 2 else "popen", None, None))
-    for prog, sd, io_kind, cuts, schedule in jobs:
+    for prog, sd, io_kind0, cuts, schedule in jobs:
+        io_kind = io_kind0
         if cuts is None:
             # a run without loss tells how many bytes the worker writes; then every offset (or a sample) is cut
             base = CC.run_program(prog, S.RandomChooser(random.Random(sd)), sd, io_kind=io_kind)
@@ -121,6 +122,9 @@ def main(tier, seed, replay=None):
                 cuts = sorted(set([b for b in bounds if 0 <= b < total] + [rng.randrange(total) for _ in range(limit // 2)]))[: limit]
             ck.count("streams")
         for k in cuts:
+            if not replay and io_kind0 == "socket":
+                # a dying peer shows as end of file or, when it had unread input, as ECONNRESET from recv()
+                io_kind = "socket_rst" if k % 2 else "socket"
             r = random.Random(sd * 1009 + k)
             chooser = S.ReplayChooser(schedule) if schedule is not None else (S.RandomChooser(r) if k % 3 else S.PCTChooser(r, 3, 400))
             out = CC.run_program(prog, chooser, sd, cut_w2i=k, io_kind=io_kind, line_budget=(replay["example"].get("line_budget", 0) if replay else 0))
@@ -154,6 +158,9 @@ def main(tier, seed, replay=None):
                         sub.fail("after-loss:%s-not-OSError:%s" % (name, fin.get("after_loss_" + name)), ex)
                 if fin.get("channels_left") or fin.get("callbacks_left"):
                     sub.fail("after-loss:channel-tables-not-empty", ex)
+                for name in ("receive", "waitclose"):
+                    if fin.get("after_loss_" + name) != "EOFError":
+                        sub.fail("after-loss:later-%s-on-an-open-channel-not-EOFError:%s" % (name, fin.get("after_loss_" + name)), ex)
             errs = [e for e in out["thread_errors"] if "user" in e or "controller" in e]
             if errs:
                 sub.fail("loss:thread-died:" + errs[0][:50], ex)
